@@ -79,6 +79,12 @@ def headerUnit (records : List Str) : List UInt8 :=
 /-- data unit: the bytes, zeros to the block boundary -/
 def dataUnit (bytes : List UInt8) : List UInt8 := bytes ++ List.replicate (fill bytes.length) 0
 
+/-- the `PERIODi` records: present only when the table has periods -/
+def periodRecords (E : Ext) (t : Table) : List Str :=
+  match t.periods with
+  | none => []
+  | some p => (List.range t.ndim).map fun i => valueCard ("PERIOD".toList ++ dec i) (E.fmtD (p.getD i 0)) []
+
 /-- the primary header of a table -/
 def primaryHeader (E : Ext) (t : Table) : List Str :=
   [ valueCard "SIMPLE".toList ['T'] "file does conform to FITS standard".toList,
@@ -93,9 +99,7 @@ def primaryHeader (E : Ext) (t : Table) : List Str :=
        stringCard "TYPE".toList "Spline Coefficient Table".toList ]
   ++ (List.range t.ndim).map (fun i =>
         valueCard ("ORDER".toList ++ dec i) (dec (t.order.getD i 0)) "B-Spline Order".toList)
-  ++ (match t.periods with
-      | none => []
-      | some p => (List.range t.ndim).map fun i => valueCard ("PERIOD".toList ++ dec i) (E.fmtD (p.getD i 0)) [])
+  ++ periodRecords E t
   ++ t.aux.map (fun kv => stringCard kv.1 kv.2)
 
 /-- header of a one-dimensional `BITPIX = -64` image extension called `name` with `n` values -/
